@@ -92,6 +92,7 @@ impl<A: AcceptableMasterList, C: Clock, F: Filter, R: Rng, S: PtpInstanceStateMu
             if self.port_identity.clock_identity
                 == message.header.source_port_identity.clock_identity
                 && self.port_identity.port_number > message.header.source_port_identity.port_number
+                && !matches!(self.port_state, PortState::Faulty)
             {
                 self.multiport_disable = Some(Duration::ZERO);
                 self.set_forced_port_state(PortState::Passive);
@@ -253,7 +254,7 @@ impl<A, C: Clock, F: Filter, R: Rng, S: PtpInstanceStateMutex> Port<'_, InBmca, 
                         }
                     }
                 } else if self.multiport_disable.is_some() {
-                    if !matches!(self.port_state, PortState::Passive) {
+                    if !matches!(self.port_state, PortState::Passive | PortState::Faulty) {
                         self.set_forced_port_state(PortState::Passive);
                     }
                 } else {
